@@ -548,7 +548,15 @@ class Interp:
             m, _ = a.cls.lookup(nm)
             if m is not None:
                 return self.truthy(self.call(BoundMethod(a, m), [b], {}))
+        if not (self.plain_python_value(a) and self.plain_python_value(b)):
+            raise Unsupported("comparison %s between %s and %s" % (op, type(a).__name__, type(b).__name__))
         raise PyRaise("TypeError", "'%s' not supported between %s and %s" % (op, self.typeof(a), self.typeof(b)))
+
+    def plain_python_value(self, x):
+        """a value whose Python type is known exactly (so that "Python raises TypeError here" is a fact, not a gap of the model)"""
+        if x is None or isinstance(x, (bool, int, float, str, tuple, list, dict, set, frozenset, Obj, EnumMember)):
+            return True
+        return is_z3(x) and (z3.is_int(x) or z3.is_real(x) or z3.is_bool(x))
 
     def contains(self, item, container):
         """item in container"""
@@ -654,6 +662,9 @@ class Interp:
         if is_z3(b) and z3.is_bool(b):
             b = z3.If(b, 1, 0)
         if not (num(a) and num(b)):
+            if not (self.plain_python_value(a) and self.plain_python_value(b)):
+                # an abstract value of the engine is involved: what Python does is not modelled, so nothing is claimed
+                raise Unsupported("binary %s between %s and %s" % (op, type(a).__name__, type(b).__name__))
             raise PyRaise("TypeError", "unsupported operand type(s) for %s: %s and %s" % (op, self.typeof(a), self.typeof(b)))
         sym = is_z3(a) or is_z3(b)
         if not sym:
@@ -1533,6 +1544,20 @@ class Interp:
                 e.lineno = getattr(s, "lineno", None)
             raise
 
+    def exec_fragment(self, stmts, fr):
+        """execute a fragment of a function body (a loop body, a block) in a frame whose locals a contract unit
+        provides by name.  A name the fragment uses but the unit did not provide means the code no longer has
+        the shape the unit was written for (locals renamed, block restructured): nothing is decided then."""
+        try:
+            if isinstance(stmts, list):
+                return self.exec_block(stmts, fr)
+            return self.exec(stmts, fr)
+        except PyRaise as e:
+            if e.cls in ("NameError", "UnboundLocalError"):
+                raise Unsupported("fragment of %s uses a local the contract unit does not provide (%s): the code no longer has "
+                                  "the shape this unit was written for" % (getattr(fr.func, "qualname", "?"), e.msg if hasattr(e, "msg") else e))
+            raise
+
     def x_Pass(self, s, fr):
         pass
 
@@ -1876,6 +1901,10 @@ class Interp:
         if e.id in fr.func.node_locals():
             raise PyRaise("UnboundLocalError", "local variable '%s' referenced before assignment" % e.id,
                           getattr(e, "lineno", None))
+        import builtins as _py_builtins
+        if hasattr(_py_builtins, e.id):
+            # a Python builtin the engine has no model of: not an error of the program
+            raise Unsupported("builtin '%s' has no model in the engine" % e.id)
         raise PyRaise("NameError", "name '%s' is not defined" % e.id, getattr(e, "lineno", None))
 
     def e_Attribute(self, e, fr):
